@@ -72,6 +72,13 @@ def cases(tier, seed):
             N2 = [rng.choice((2, 3)) for _ in range(d2)]
             N1 = [rng.choice([n for n in (2, 3, 4) if n != N2[-1]])]
             cs.append({'gen': 'neg', 'row': 'binop-shape-mismatch', 'op': op, 'N1': N1, 'N2': N2, 'cls': 'order'})
+        # different orders whose LEADING modes agree (a guard that zips the two shape lists stops at the shorter one)
+        for rep in range(k):
+            d1 = rng.choice((1, 2, 3))
+            N1 = [rng.choice((2, 3, 4)) for _ in range(d1)]
+            extra = [rng.choice((2, 3, 5)) for _ in range(rng.choice((1, 2)))]
+            cs.append({'gen': 'neg', 'row': 'binop-shape-mismatch', 'op': op, 'N1': N1, 'N2': N1 + extra, 'cls': 'order-prefix/second-longer'})
+            cs.append({'gen': 'neg', 'row': 'binop-shape-mismatch', 'op': op, 'N1': N1 + extra, 'N2': N1, 'cls': 'order-prefix/first-longer'})
     # operator/operator shape mismatch
     for op in ('add', 'sub', 'mul', 'div'):
         for d in (1, 2):
